@@ -257,8 +257,78 @@ fn underpromotion_mate(rng: &mut Rng) -> Option<Pos> {
     None
 }
 
+/// A rare kind of check evasion: a double pawn push gives a check that can only be answered
+/// by capturing the pawn en passant - in a position that also has a real mate in one. An
+/// engine that forgets the en-passant evasion sees a second, false, mate.
+fn en_passant_only_evasion(rng: &mut Rng) -> Option<Pos> {
+    for _ in 0..4000 {
+        let white_attacks = rng.chance(1, 2);
+        let (ac, dc) = if white_attacks { (0, BLACK) } else { (BLACK, 0) };
+        // ranks from the attacker's point of view
+        let r = |n: i32| if white_attacks { n } else { 7 - n };
+        let pf = rng.below(8) as i32;
+        let kf = pf + if rng.chance(1, 2) { 1 } else { -1 };
+        let cf = pf + if rng.chance(1, 2) { 1 } else { -1 };
+        if !(0..8).contains(&kf) || !(0..8).contains(&cf) {
+            continue;
+        }
+        let mut sqs = [EMPTY; 64];
+        let at = |f: i32, rk: i32| (r(rk) * 8 + f) as usize;
+        sqs[at(pf, 1)] = P | ac; // the pawn that will push two squares
+        sqs[at(kf, 4)] = K | dc; // the king it will check
+        if sqs[at(cf, 3)] != EMPTY {
+            continue;
+        }
+        sqs[at(cf, 3)] = P | dc; // the pawn that can take en passant
+        let mut put = |sqs: &mut [u8; 64], p: u8, rng: &mut Rng| {
+            for _ in 0..40 {
+                let s = rng.usize_below(64);
+                if sqs[s] != EMPTY || s == at(pf, 2) || s == at(pf, 3) {
+                    continue;
+                }
+                if ptype(p) == P && !(8..56).contains(&s) {
+                    continue;
+                }
+                sqs[s] = p;
+                return;
+            }
+        };
+        put(&mut sqs, K | ac, rng);
+        for _ in 0..rng.range(1, 3) {
+            put(&mut sqs, *rng.pick(&[N, B, R, Q, N]) | ac, rng);
+        }
+        for _ in 0..rng.range(1, 4) {
+            put(&mut sqs, *rng.pick(&[P, P, P, N, B]) | dc, rng);
+        }
+        let pos = Pos {
+            sq: sqs,
+            white: white_attacks,
+            castle: [false; 4],
+            ep: None,
+            hmc: rng.below(21) as u32,
+            fmn: rng.range(1, 90) as u32,
+        };
+        if !pos.is_sane() || Solver::mating_moves(&pos).is_empty() {
+            continue;
+        }
+        // the double push must be legal, give check, and leave en passant as the only answer
+        let push = pos.legal_moves().into_iter().find(|m| m.double && m.from as usize == at(pf, 1));
+        let Some(push) = push else { continue };
+        let after = pos.make(push);
+        if !after.in_check(after.white) {
+            continue;
+        }
+        let replies = after.legal_moves();
+        if !replies.is_empty() && replies.iter().all(|m| m.ep) {
+            return Some(pos);
+        }
+    }
+    None
+}
+
 fn candidate(rng: &mut Rng) -> Option<Pos> {
-    match rng.below(13) {
+    match rng.below(14) {
+        13 => en_passant_only_evasion(rng),
         12 => underpromotion_mate(rng),
         10..=11 => cornered_king(rng),
         0..=4 => attacker_ending(rng),
@@ -460,6 +530,12 @@ pub fn check(plans: &[Plan], recs: &[RunRec]) -> Outcome {
         if class.m1 {
             if Solver::mating_moves(&pos).iter().any(|m| m.promo != 0 && m.promo != Q) {
                 out.stats.inc("reach.mate_by_underpromotion_available");
+            }
+            if pos.legal_moves().iter().any(|m| {
+                let a = pos.make(*m);
+                m.double && a.in_check(a.white) && !a.legal_moves().is_empty() && a.legal_moves().iter().all(|x| x.ep)
+            }) {
+                out.stats.inc("reach.check_answerable_only_by_en_passant");
             }
             if after.is_checkmate() {
                 out.stats.inc("ok.mate_in_1_played");
